@@ -1394,6 +1394,10 @@ func SupportedTcbLevelsFromCollateral(quote any, options *Options) (pcs.TcbLevel
 	if options == nil {
 		return pcs.TcbLevel{}, pcs.TcbLevel{}, ErrOptionsNil
 	}
+	if options.Now == nil {
+		options.Now = defaultTimeSet()
+		defer func() { options.Now = nil }()
+	}
 	if err := verifyCollateral(options); err != nil {
 		return pcs.TcbLevel{}, pcs.TcbLevel{}, err
 	}
@@ -1464,7 +1468,10 @@ func tdxQuoteV4(quote *pb.QuoteV4, options *Options) error {
 	options.pckCertExtensions = exts
 	options.chain = chain
 	if options.Now == nil {
+		// Verify at the current time, but leave the caller's options as they were: a reused
+		// Options value must not keep verifying at the time of its first use.
 		options.Now = defaultTimeSet()
+		defer func() { options.Now = nil }()
 	}
 	return verifyEvidenceV4(quote, options)
 }
